@@ -95,6 +95,12 @@ def stream_sample(ctx, ntables):
             if R.random() < 0.3 and n > 3: col[R.randrange(n)] = pd.NaT
             df = t["df"].copy(); j = R.randrange(len(df.columns)); df[df.columns[j]] = col
             t["df"] = df; t["kinds"][j] = "ts"
+        if ti % 7 == 3 or R.random() < 0.1:
+            # a real column with one cell near the bottom of the double range (its shortest repr has more than 300 decimal places) among ordinary values
+            n = t["n"]
+            col = pd.Series([R.choice([1.5, 2.25, 3.0, 10.0]) for _ in range(n)], dtype=float); col[R.randrange(n)] = R.choice([2.5e-308, 1e-320, 3e-310])
+            df = t["df"].copy(); j = R.randrange(len(df.columns)); df[df.columns[j]] = col
+            t["df"] = df; t["kinds"][j] = "float"
         if R.random() < 0.15:          # 64-bit surrogate keys as entity ids (unsigned, upper half of the range), several rows per entity
             ne = max(1, t["n"] // R.choice([1, 2, 5]))
             t["pids"] = pd.DataFrame({"id": np.array([2 ** 63 + R.randrange(ne) * 7919 if R.random() < 0.7 else 2 ** 64 - 1 - R.randrange(ne) for _ in range(t["n"])], dtype=np.uint64)})
